@@ -8,6 +8,7 @@ import (
 	"bytes"
 	"encoding/json"
 	"fmt"
+	"io"
 	"os"
 	"os/exec"
 	"path/filepath"
@@ -292,6 +293,34 @@ func (w *worker) watchdog() {
 // the Go runtime exits with 2 on an unrecovered panic, a fatal error ("concurrent map writes") or a
 // fatal signal, and those are deaths of the code under test — attributed to the in-flight case.
 const ExitWorkerHarness = 4
+
+// Auxiliary functions: a monitor may need a result computed by a FRESH process (nothing parsed, printed or
+// cached before). `vcheck -aux name` reads stdin, applies the function and writes the result to stdout.
+var auxFuncs = map[string]func([]byte) []byte{}
+
+func RegisterAux(name string, f func([]byte) []byte) { auxFuncs[name] = f }
+
+func RunAux(name string) int {
+	f := auxFuncs[name]
+	if f == nil {
+		fmt.Fprintln(os.Stderr, "unknown aux function", name)
+		return ExitWorkerHarness
+	}
+	in, err := io.ReadAll(os.Stdin)
+	if err != nil {
+		return ExitWorkerHarness
+	}
+	os.Stdout.Write(f(in))
+	return 0
+}
+
+// FreshProcess runs an auxiliary function in a new process of this binary.
+func FreshProcess(name string, in []byte) ([]byte, error) {
+	cmd := exec.Command(self(), "-aux", name)
+	cmd.Stdin = bytes.NewReader(in)
+	cmd.Env = append(os.Environ(), "VERIF_CHILD=1")
+	return cmd.Output()
+}
 
 // HarnessPanic marks a panic raised by the harness itself (machinery failure).
 type HarnessPanic struct{ Msg string }
